@@ -53,16 +53,21 @@ SCHEMAS = ['public', 's']
 ALIASES = [None, 'x', 'y']
 
 
+def sig_key(sig):
+    typ, name, comment, upd, dele, n1 = sig
+    return (typ, name, upd, dele, n1)       # `Reference.__eq__` ignores the comment
+
+
 def sig_ids(u):
     ids = {}
     for r in u['R']:
-        ids.setdefault(tuple(r['sig']), len(ids))
+        ids.setdefault(sig_key(r['sig']), len(ids))
     return ids
 
 
 def lean_universe(u):
     ids = sig_ids(u)
-    return {'T': u['T'], 'R': [{'sig': ids[tuple(r['sig'])], 'cols': r['cols']} for r in u['R']],
+    return {'T': u['T'], 'R': [{'sig': ids[sig_key(r['sig'])], 'cols': r['cols']} for r in u['R']],
             'E': u['E'], 'G': u['G'], 'N': u['N'], 'P': u['P']}
 
 
@@ -397,12 +402,15 @@ def table_hist_job(job):
                 else:
                     k = rng.randrange(len(cols))
                     op = ['delete_column_obj', k]
-                    member = any(cols[k] is x for x in t.columns)
+                    member = any(cols[k] is x or cols[k] == x for x in t.columns)
                     got = t.delete_column(cols[k])
                     if not member:
                         fails.append('delete_column of an absent column succeeded')
                     else:
-                        exp_cols.pop(cidx_in(exp_cols, cols[k]))
+                        # the removed member is the first one equal to the argument (a structural twin counts)
+                        if not (got is cols[k] or got.name == cols[k].name) or got.table is not None:
+                            fails.append('delete_column returned a column that is not (equal to) the argument, or left it attached')
+                        exp_cols.pop(cidx_in(exp_cols, got))
             elif r < 0.6:
                 subj = []
                 for _ in range(rng.randint(1, 2)):
@@ -436,12 +444,14 @@ def table_hist_job(job):
                 else:
                     k = rng.randrange(len(idxs))
                     op = ['delete_index_obj', k]
-                    member = any(idxs[k] is x for x in t.indexes)
-                    t.delete_index(idxs[k])
+                    member = any(idxs[k] is x or idxs[k] == x for x in t.indexes)
+                    got = t.delete_index(idxs[k])
                     if not member:
                         fails.append('delete_index of an absent index succeeded')
                     else:
-                        exp_idx.pop(cidx_in(exp_idx, idxs[k]))
+                        if not (got is idxs[k] or got.name == idxs[k].name) or got.table is not None:
+                            fails.append('delete_index returned an index that is not (equal to) the argument, or left it attached')
+                        exp_idx.pop(cidx_in(exp_idx, got))
             else:
                 nm = rng.choice(['a', 'b', 'c', 'zz'])
                 op = ['lookup', nm]
